@@ -91,6 +91,10 @@ def handle : Handler := fun op a =>
       let s ← a.nats "shape"
       let pw ← a.nats "pad_width"
       pure (optShape (pad s pw))
+  | "k9_matmul" => orBad do
+      let s ← a.nats "ashape"
+      let t ← a.nats "bshape"
+      pure (optShape (matmulShape s t))
   | "k9_slice" => orBad do
       let s ← a.nats "shape"
       let s0 ← (a.get? "s0").bind parseSlice
@@ -122,6 +126,65 @@ def handle : Handler := fun op a =>
       let s ← a.nats "x"
       let ax ← a.int "axis"
       pure (optArr (vSum s ax))
+  | "k9v_broadcast_to" => orBad do
+      let s ← a.nats "x"
+      let t ← a.nats "shape"
+      pure (optArr (vBroadcastTo s t))
+  | "k9v_broadcast_arrays" => orBad do
+      let s ← a.nats "x"
+      let t ← a.nats "y"
+      match vBroadcastArrays s t with
+      | some ((s1, d1), (s2, d2)) => pure s!"ok shape={fmtNats s1} data={fmtNats d1}|shape={fmtNats s2} data={fmtNats d2}"
+      | none => pure "nothing"
+  | "k9v_repeat" => orBad do
+      let s ← a.nats "x"
+      let r ← a.nat "repeats"
+      let ax ← a.optInt "axis"
+      pure (optArr (vRepeat s r ax))
+  | "k9v_pad" => orBad do
+      let s ← a.nats "x"
+      let pw ← a.nats "pad_width"
+      pure (optArr (vPad s pw))
+  | "k9v_slice" => orBad do
+      let s ← a.nats "x"
+      let s0 ← (a.get? "s0").bind parseSlice
+      let s1 ← (a.get? "s1").bind parseSlice
+      pure (optArr (vSlice2 s s0 s1))
+  | "k9v_flip" => orBad do
+      let s ← a.nats "x"
+      let ax ← a.optInts "axis"
+      pure (optArr (vFlip s ax))
+  | "k9v_expand_dims" => orBad do
+      let s ← a.nats "x"
+      let ax ← a.ints "axis"
+      pure (optArr (vExpandDims s ax))
+  | "k9v_squeeze" => orBad do
+      let s ← a.nats "x"
+      pure (optArr (some (vSqueeze s)))
+  | "k9v_concatenate" => orBad do
+      let s ← a.nats "x"
+      let t ← a.nats "y"
+      let ax ← a.optInt "axis"
+      pure (optArr (vConcatenate s t ax))
+  | "k9v_where" => orBad do
+      let c ← a.nats "c"
+      let s ← a.nats "x"
+      let t ← a.nats "y"
+      pure (optArr (vWhere c s t))
+  | "k9v_matmul" => orBad do
+      let s ← a.nats "x"
+      let t ← a.nats "y"
+      pure (optArr (vMatmul s t))
+  | "k9v_sum_k" => orBad do
+      let s ← a.nats "x"
+      let ax ← a.optInts "axis"
+      let kd ← a.nat "keepdims"
+      pure (optArr (vSumK s ax (kd != 0)))
+  | "k9v_take" => orBad do
+      let s ← a.nats "x"
+      let ind ← a.nats "indices"
+      let ax ← a.int "axis"
+      pure (optArr (vTake s ind ax))
   | "k9_bvec" => orBad do
       -- the bounded-vector model itself, for the utl::static_vector cases of the matrix
       let cap ← a.nat "cap"
